@@ -1,0 +1,9 @@
+//go:build verif
+
+// Contracts for deductive verification (comment-only; compiled only with -tags verif).
+// Syntax and semantics: /verif/DESIGN.md §2.6 and Appendix A.
+
+package types
+
+//@ func (BridgeConfig) Validate
+//@   ensures err == nil ==> config.FinalizationPeriod > 0                                        // C05: period_positive
